@@ -2,6 +2,7 @@ package main
 
 import (
 	"bytes"
+	"fmt"
 
 	carv2 "github.com/ipld/go-car/v2"
 )
@@ -112,9 +113,7 @@ func c02Large(c *Ctx) {
 					nb = VN(0)
 				}
 				f := payload[:k]
-				hok, hdrs := scanTables(f)
-				in := VL{VN(kind), o.val(), VB(f), hok, hdrs, VL{VT("trunc"), orig, nb}}
-				c.Emit("scan", in, runScanImpl(kind, o, f, r.Bool()), true)
+				c02xScanCase(c, r, kind, o, f, nil, VL{VT("trunc"), orig, nb}, true)
 				c.Count("input:large-section-prefix")
 			}
 		}
@@ -175,11 +174,7 @@ func init() {
 				o.zeof = true
 			}
 			emit := func(kind uint64, f []byte, expect Val) {
-				hok, hdrs := scanTables(f)
-				// the original sections must be answerable too (prefix cases ask about them)
-				in := VL{VN(kind), o.val(), VB(f), hok, hdrs, expect}
-				obs := runScanImpl(kind, o, f, r.Bool())
-				c.Emit("scan", in, obs, len(blks) > 0)
+				c02xScanCase(c, r, kind, o, f, nil, expect, len(blks) > 0)
 			}
 			boundary := map[int]bool{base + lay.hdrEnd: true}
 			for _, e := range lay.secEnd {
@@ -251,8 +246,17 @@ func c02xTruncExpect(orig Val, lay layout, k int) Val {
 
 func c02xEmitLoad(c *Ctx, r *RNG, kind uint64, fast bool, failAt int, f []byte, expect Val, nontrivial bool) {
 	hok, hdrs := scanTables(f)
-	in := VL{VN(kind), vbool(fast), c02xFailVal(failAt), VB(f), hok, hdrs, expect}
-	c.Emit("c02load", in, c02xRunLoadImpl(kind, fast, failAt, f, r.Bool()), nontrivial)
+	mode := c02xMode(r)
+	one := func(mode int) {
+		in := VL{VN(kind), vbool(fast), c02xFailVal(failAt), VB(f), hok, hdrs, expect, VN(uint64(mode))}
+		c.Emit("c02load", in, c02xRunLoadImpl(kind, fast, failAt, f, mode), nontrivial)
+	}
+	one(mode)
+	// the internal loader reads its length prefixes through the ReadByte adapters: same bytes, last
+	// ones delivered together with io.EOF (Put path only: the paths share the reader)
+	if mode != srcModeDataErr && kind == 1 && !fast && len(f) <= 4096 {
+		one(srcModeDataErr)
+	}
 }
 
 // c02xLoaderCases drives car.LoadCar and the internal carv1.LoadCar (Put path and PutMany path) over
@@ -408,9 +412,7 @@ func c02xEdge(c *Ctx) {
 	orig := blksVal(blks)
 	o := defaultROpts
 	emit := func(kind uint64, f []byte, expect Val) {
-		hok, hdrs := scanTables(f)
-		in := VL{VN(kind), o.val(), VB(f), hok, hdrs, expect}
-		c.Emit("scan", in, runScanImpl(kind, o, f, r.Bool()), true)
+		c02xScanCase(c, r, kind, o, f, nil, expect, true)
 	}
 	boundary := map[int]bool{lay.hdrEnd: true}
 	for _, e := range lay.secEnd {
@@ -459,11 +461,13 @@ func c02xSkipExpect(orig Val, lay layout, base, k, fileLen int) Val {
 	return VL{VT("trunc"), orig, VN(uint64(nb)), VN(uint64(nwhole))}
 }
 
-func c02xSkipSrc(r *RNG, seekable bool) (uint64, int) {
+// c02xSkipSrc: source kind, chunk and "io.EOF comes with the last bytes" (counting sources only).
+func c02xSkipSrc(r *RNG, seekable bool) (uint64, int, bool) {
 	if seekable {
-		return pick(r, []uint64{0, 0, 3, 4}), 0
+		k := pick(r, []uint64{0, 0, 3, 4, 4})
+		return k, 0, k >= 3 && r.Bool()
 	}
-	return 2, pick(r, []int{0, 1, 3, 7, 4096})
+	return 2, pick(r, []int{0, 1, 3, 7, 4096}), r.Bool()
 }
 
 // c02xSkipCases: the BlockReader driven by SkipNext only and by a random mix of Next and SkipNext, on
@@ -480,11 +484,14 @@ func c02xSkipCases(c *Ctx, r *RNG, file []byte, base int, lay layout, blks []Blk
 				if t > 0 {
 					w = randChoices(r, n+2)
 				}
-				kind, chunk := c02xSkipSrc(r, seekable)
+				kind, chunk, dataErr := c02xSkipSrc(r, seekable)
 				if seekable && t == 0 && k%97 == 5 {
-					kind = 1 // *os.File now and then
+					kind, dataErr = 1, false // *os.File now and then
 				}
-				c02xEmitSkip(c, kind, chunk, o, file[:k], w, expect, n > 0)
+				if !seekable && t == 0 {
+					dataErr = true // every cut is walked once with io.EOF arriving with the last byte
+				}
+				c02xEmitSkip(c, kind, chunk, dataErr, o, file[:k], w, expect, n > 0)
 				c.Count("input:skip-prefix")
 			}
 		}
@@ -530,9 +537,7 @@ func c02xVarint(c *Ctx) {
 	v2file := v2Container(payload, dpad, nil)
 	v2base := 51 + int(dpad)
 	emitScan := func(kind uint64, o rOpts, f []byte, expect Val) {
-		hok, hdrs := scanTables(f)
-		in := VL{VN(kind), o.val(), VB(f), hok, hdrs, expect}
-		c.Emit("scan", in, runScanImpl(kind, o, f, r.Bool()), true)
+		c02xScanCase(c, r, kind, o, f, nil, expect, true)
 	}
 	scanExpect := func(base, k, fileLen int) Val {
 		e := c02xSkipExpect(orig, lay, base, k, fileLen).(VL)
@@ -583,9 +588,7 @@ func c02xVarint(c *Ctx) {
 					} else {
 						// (the oracle tables come from the unmodified payload: the harness's own section
 						// enumerator follows go-varint and stops at the non-minimal prefix)
-						hok, hdrs := scanTables(payload)
-						in := VL{VN(2), o.val(), VB(g), hok, hdrs, VL{VT("none")}}
-						c.Emit("scan", in, runScanImpl(2, o, g, r.Bool()), true)
+						c02xScanCase(c, r, 2, o, g, payload, VL{VT("none")}, true)
 					}
 					c.Count("input:bad-length-prefix")
 				}
@@ -595,12 +598,12 @@ func c02xVarint(c *Ctx) {
 				sexp := VL{VT("trunc"), orig, VN(1), VN(uint64(i))}
 				for _, seekable := range []bool{true, false} {
 					for _, f := range [][]byte{g, gv2} {
-						kind, chunk := c02xSkipSrc(r, seekable)
+						kind, chunk, dataErr := c02xSkipSrc(r, seekable)
 						w := make([]bool, len(blks)+2)
 						if r.Bool() {
 							w = randChoices(r, len(blks)+2)
 						}
-						c02xEmitSkip(c, kind, chunk, o, f, w, sexp, true)
+						c02xEmitSkip(c, kind, chunk, dataErr, o, f, w, sexp, true)
 						c.Count("input:skip-bad-length-prefix")
 					}
 				}
@@ -638,12 +641,35 @@ func c02xVarint(c *Ctx) {
 			emitScan(0, o, v2file3[:v2base+k], VL{e[0], e[1], e[2]})
 			c.Count("input:varint3-prefix")
 			for _, seekable := range []bool{true, false} {
-				kind, chunk := c02xSkipSrc(r, seekable)
-				c02xEmitSkip(c, kind, chunk, o, payload3[:k], make([]bool, 5), e, true)
-				kind, chunk = c02xSkipSrc(r, seekable)
-				c02xEmitSkip(c, kind, chunk, o, v2file3[:v2base+k], randChoices(r, 5), c02xSkipExpect(orig3, lay3, v2base, v2base+k, len(v2file3)), true)
+				kind, chunk, dataErr := c02xSkipSrc(r, seekable)
+				c02xEmitSkip(c, kind, chunk, dataErr, o, payload3[:k], make([]bool, 5), e, true)
+				kind, chunk, dataErr = c02xSkipSrc(r, seekable)
+				c02xEmitSkip(c, kind, chunk, dataErr, o, v2file3[:v2base+k], randChoices(r, 5), c02xSkipExpect(orig3, lay3, v2base, v2base+k, len(v2file3)), true)
 				c.Count("input:skip-varint3-prefix")
 			}
 		}
+	}
+}
+
+// ---- round 4: delivery patterns of the source --------------------------------------------------------
+
+// c02xScanCase emits one "scan" case read through a source with a drawn delivery pattern (recorded as
+// the 7th input field, which the model ignores); for small files a reader that takes its length
+// prefixes through go-car's ReadByte adapters (BlockReader, internal reader) also gets the same bytes
+// through iotest.DataErrReader (the last bytes arrive together with io.EOF).
+func c02xScanCase(c *Ctx, r *RNG, kind uint64, o rOpts, f []byte, tabFrom []byte, expect Val, nontrivial bool) {
+	if tabFrom == nil {
+		tabFrom = f
+	}
+	hok, hdrs := scanTables(tabFrom)
+	mode := c02xMode(r)
+	one := func(mode int) {
+		in := VL{VN(kind), o.val(), VB(f), hok, hdrs, expect, VN(uint64(mode))}
+		c.Emit("scan", in, runScanImplSrc(kind, o, c02xSource(f, mode)), nontrivial)
+		c.Count(fmt.Sprintf("source:mode%d", mode))
+	}
+	one(mode)
+	if mode != srcModeDataErr && kind != 2 && len(f) <= 4096 {
+		one(srcModeDataErr)
 	}
 }
